@@ -397,7 +397,7 @@ func lookupExpr(fset *token.FileSet, fd *ast.FuncDecl) string {
 	ast.Inspect(fd.Body, func(n ast.Node) bool {
 		if as, ok := n.(*ast.AssignStmt); ok && len(as.Lhs) == 2 && len(as.Rhs) == 1 {
 			if ix, ok := as.Rhs[0].(*ast.IndexExpr); ok && exprText(fset, as.Lhs[1]) == "found" {
-				found = append(found, exprText(fset, as.Lhs[0])+" := "+exprText(fset, ix))
+				found = append(found, exprText(fset, ix)) // the variable's name is immaterial
 			}
 		}
 		return true
